@@ -2,6 +2,7 @@ package cdi
 
 import (
 	oci "github.com/opencontainers/runtime-spec/specs-go"
+	"golang.org/x/sys/unix"
 	cdi "tags.cncf.io/container-device-interface/specs-go"
 )
 
@@ -10,6 +11,27 @@ import (
 func init() {
 	vregister("H_C14_frame", H_C14_frame)
 	vregister("H_C14_repeat", H_C14_repeat)
+	vregister("H_C14_order", H_C14_order)
+}
+
+// repeatability across Spec files: the same request injected twice gives equal results whatever order Go's map
+// iteration happens to take (the engine runs the first injection with insertion order, the second with the reverse)
+func H_C14_order() {
+	c, keys := vMkCache(2, false)
+	shape := vDrawOCI("oci.", 1, 0, 0)
+	o1 := vMkOCI(shape)
+	o2 := vMkOCI(shape)
+	req := []string{keys[nondetChoice("first", 2)], keys[2+nondetChoice("second", 2)]}
+	vmapOrder(0)
+	_, err1 := c.InjectDevices(o1, req...)
+	vmapOrder(1)
+	_, err2 := c.InjectDevices(o2, req...)
+	vmapOrder(0)
+	vreach("injected-twice")
+	vassert("same-outcome-both-times", (err1 == nil) == (err2 == nil))
+	if err1 == nil && err2 == nil {
+		vassert("same-request-equal-results", vEqOCI(o1, o2))
+	}
 }
 
 // a cache whose first device has a device node leaving hostPath/type/major/minor/uid/gid unspecified in all combinations
@@ -66,15 +88,16 @@ func H_C14_frame() {
 
 // two injections into equal OCI specs; the host may answer differently the second time
 func H_C14_repeat() {
-	c, keys, _ := vMkCacheC14()
+	c, keys, dn := vMkCacheC14()
+	dnType, dnHasMajor := dn.Type, dn.Major != 0
 	shape := vDrawOCI("oci.", 1, 1, 1)
 	o1 := vMkOCI(shape)
 	o2 := vMkOCI(shape)
-	vLstatCalls = 0
+	vHostLog = nil
 	_, err1 := c.InjectDevices(o1, keys[0])
-	n1 := vLstatCalls
+	n1 := len(vHostLog)
 	_, err2 := c.InjectDevices(o2, keys[0])
-	n2 := vLstatCalls - n1
+	n2 := len(vHostLog) - n1
 	// nothing is remembered: the host is consulted at the second injection exactly when it was at the first
 	vassert("host-consulted-at-each-injection", n1 == n2)
 	if err1 == nil && err2 == nil {
@@ -82,6 +105,22 @@ func H_C14_repeat() {
 		if n1 == 0 {
 			vreach("no-host-lookup")
 			vassert("equal-results-when-host-not-consulted", vEqOCI(o1, o2))
+		}
+		if n1 == 1 && n2 == 1 {
+			// unspecified attributes come from the host node as it is at each injection
+			vreach("host-consulted-twice")
+			a1, a2 := vHostLog[0], vHostLog[1]
+			d1 := o1.Linux.Devices[len(o1.Linux.Devices)-1]
+			d2 := o2.Linux.Devices[len(o2.Linux.Devices)-1]
+			if dnType == "" {
+				vassert("type-from-the-host-at-each-injection", d1.Type == vHostType(a1.mode) && d2.Type == vHostType(a2.mode))
+			}
+			if !dnHasMajor && d2.Type != "p" && d1.Type != "p" {
+				vassert("major-minor-from-the-host-at-each-injection", d1.Major == int64(unix.Major(a1.rdev)) && d2.Major == int64(unix.Major(a2.rdev)) && d2.Minor == int64(unix.Minor(a2.rdev)))
+			}
+			if a1.mode == a2.mode && a1.rdev == a2.rdev {
+				vassert("equal-host-answers-give-equal-results", vEqOCI(o1, o2))
+			}
 		}
 	}
 	_ = oci.Spec{}
